@@ -30,6 +30,8 @@ structure Dump where
   pres  : String := ""              -- backlog request issued from inside the batch ("" = none)
   pbest : Nat := 0
   pbl   : List Node := []
+  pseen : Nat := 0                  -- notifications the sink had taken when the backlog was requested
+  pre   : List (Bool × Nat × Nat) := []   -- per notification: block store tip (height, id) the slow sink saw right before taking it
 deriving Repr
 
 abbrev Fail := String × String
@@ -278,6 +280,45 @@ def c19Probe (k h : Nat) (a : Dump) : List Fail :=
     if view != a.byh.take (f + 1) then
       [("midbatch-backlog-gap", s!"subscriber registering after event {k} of the write with height {h}: backlog {repr a.pbl} (best {a.pbest}) then live {repr live} give {view}, committed chain is {a.byh.take (f + 1)}")]
     else []
+
+/-- the property's replay rule, strictly: a connected event is skipped only for a block already
+held (same block), otherwise it must extend the held tip; a disconnected event above the held tip
+is for a block the subscriber was never told about and is ignored, otherwise it must name the
+held tip.  `none` = the stream cannot be applied. -/
+def replayStrict1 (view : List Nat) : Ntfn → Option (List Nat)
+  | .conn id h _ =>
+    if h < view.length then (if view[h]? == some id then some view else none)
+    else if h = view.length then some (view ++ [id]) else none
+  | .disc id h _ =>
+    if view.length < h + 1 then some view
+    else if view.length = h + 1 ∧ view.getLast? = some id then some view.dropLast else none
+
+def replayStrict : List Nat → List Ntfn → Option (List Nat)
+  | v, [] => some v
+  | v, e :: es => (replayStrict1 v e).bind (fun v' => replayStrict v' es)
+
+/-- the handler is not ahead of its events: when the (slow) sink looked at the block header store
+right before taking a disconnected event, the store was as the step that produced that event left
+it (tip = the announced new tip), or the handler had not produced it yet (tip = the block itself) -/
+def c19HandlerAhead (a : Dump) : List Fail :=
+  let bad := (a.ntf.zip a.pre).any (fun p => match p.1, p.2 with
+    | .disc id h nt, (true, ph, pid) => !((ph + 1 == h && pid == nt) || (ph == h && pid == id))
+    | _, _ => false)
+  if bad then [("handler-ahead-of-events", s!"the handler ran ahead of its notifications: events {repr a.ntf}, block store tip seen right before each was taken {repr a.pre}")] else []
+
+/-- a subscriber registering when the sink had taken `seen` notifications, with a backlog request
+for height `h` (at or below every fork point): backlog, then the notifications delivered after
+the request, applied STRICTLY to the chain it held, must give the committed chain -/
+def c19LagProbe (h : Nat) (a : Dump) : List Fail :=
+  if a.pres != "ok" then [] else
+  match a.fst with
+  | none => []
+  | some f =>
+    let later := a.ntf.drop a.pseen
+    match (replayStrict (a.byh.take (h + 1)) (a.pbl.map (fun n => .conn n.id n.height 0))).bind (fun v => replayStrict v later) with
+    | none => [("backlog-then-stale-disconnect", s!"subscriber holding the chain up to {h}: backlog {repr a.pbl} and then the notifications delivered after the request {repr later} cannot be applied (an event names a block at a height where the subscriber already holds another one)")]
+    | some v =>
+      if v != a.byh.take (f + 1) then [("backlog-then-stale-disconnect", s!"subscriber holding the chain up to {h}: backlog and later notifications give {v}, committed chain is {a.byh.take (f + 1)}")] else []
 
 def committed (d : Dump) : List Nat := d.byh.take ((d.fst.getD 0) + 1)
 
